@@ -39,7 +39,7 @@ _SCHEMA_INSTANCES = {}
 
 def round_trip(ctx, what, schema, obj, compare=None):
     """dumps -> loads; returns the loaded object or None after reporting"""
-    if ctx.rng.random() < 0.5:
+    if ctx.crng.random() < 0.5:
         # applications keep one schema instance around: half of the round trips go through a long-lived instance per schema class
         schema = _SCHEMA_INSTANCES.setdefault(type(schema), schema)
         ctx.count("round_trips_through_long_lived_schema_instances")
@@ -79,6 +79,7 @@ async def evaluate_tree(tree, world, ahb: bool):
 async def check_tree(ctx, case):
     """case: {"s", "kind": cond | ahb | resolved, "asg"}"""
     s, kind = case["s"], case["kind"]
+    crng = ctx.case_rng(case)
     ctx.set_case("tree", case)
     world = E.World("c19", rc=case["asg"], fc={k: int(k) % 2 == 0 for k in E.FC_KEYS}, pkg=dict(PKG_TABLE))
     if kind == "cond":
@@ -117,12 +118,12 @@ async def check_tree(ctx, case):
             ctx.violation(f"expansion-raises-{type(exp[1]).__name__}", f"expand_packages / expand_time_conditions on the tree of {s!r} {describe(exp)[:200]}")
             return
         tree = exp[1]
-    if ctx.rng.random() < 0.2:
+    if crng.random() < 0.2:
         # a document the schema rejects, loaded in between (clients do send broken JSON): must not influence later loads
         ctx.count("rejected_documents_in_between")
-        bad = ctx.rng.choice(['{"type": "and_composition", "children": [{"token": {"value": "1"}, "tree": null}]}', '{"type": "x", "children": [{"tree": {"type": "y", "children": [{"tree": {"type": "z", "children": "oops"}}]}}]}', '{"children": [], "type": "a", "surprise": 1}', '[1, 2]', '{"type": "a", "children": [{"token": null, "tree": {"type": "b", "children": [{"token": {"type": 5, "value": []}}]}}]}'])
+        bad = crng.choice(['{"type": "and_composition", "children": [{"token": {"value": "1"}, "tree": null}]}', '{"type": "x", "children": [{"tree": {"type": "y", "children": [{"tree": {"type": "z", "children": "oops"}}]}}]}', '{"children": [], "type": "a", "surprise": 1}', '[1, 2]', '{"type": "a", "children": [{"token": null, "tree": {"type": "b", "children": [{"token": {"type": 5, "value": []}}]}}]}'])
         capture(TreeSchema().loads, bad)
-    if ctx.rng.random() < 0.5:
+    if crng.random() < 0.5:
         # the library's other (dump-only) tree schemas are used on equal trees beforehand: serialising through one schema must not
         # influence what another one produces later
         ctx.count("concise_dumps_before_round_trip")
